@@ -1,6 +1,7 @@
 package checks
 
 import (
+	"path"
 	"encoding/json"
 	"fmt"
 	"sort"
@@ -627,6 +628,117 @@ type c03Spell struct {
 	Wrapper    string   `json:"wrapper"`
 }
 
+// c03Respelled: a rule program in which some patterns of the non-MATCH rules are written in a
+// spelling that a path clean-up would change (./p, x/../p, p/). The property defines no
+// normalisation, so two readings are legitimate - every pattern is taken literally (such a
+// pattern then describes no recorded artifact), or every pattern is cleaned like a path - but
+// the verdict must be the verdict of ONE of them: rules of different types may not disagree
+// about what a pattern means.
+type c03Respelled struct {
+	Case   c03Case `json:"case"`
+	Styles []int   `json:"styles"` // per rule (materials first): 0 = as generated, 1.. = a spelling
+}
+
+func c03Respell(p string, style int) string {
+	var q string
+	switch style {
+	case 1:
+		q = "./" + p
+	case 2:
+		q = "x/../" + p
+	case 3:
+		q = p + "/"
+	case 4:
+		q = "./x/.././" + p
+	default:
+		return p
+	}
+	if path.Clean(q) != p {
+		return p
+	}
+	return q
+}
+
+// c03ApplyStyles returns the program as written and the program with every respelled pattern cleaned.
+func c03ApplyStyles(c c03Respelled) (written c03Case, cleaned c03Case, respelled int, ok bool) {
+	written, cleaned = c.Case, c.Case
+	n := 0
+	ok = true
+	do := func(rules [][]string) (w [][]string, cl [][]string) {
+		for _, rule := range rules {
+			wr := append([]string{}, rule...)
+			cr := append([]string{}, rule...)
+			if pr, err := hx.RefParseRule(rule); err == nil {
+				if !hx.CleanPattern(pr.Pattern) {
+					ok = false
+				}
+				if pr.Type != "match" && len(rule) == 2 && n < len(c.Styles) {
+					wr[1] = c03Respell(rule[1], c.Styles[n])
+					if wr[1] != rule[1] {
+						respelled++
+					}
+				}
+			}
+			n++
+			w, cl = append(w, wr), append(cl, cr)
+		}
+		return
+	}
+	written.MatRules, cleaned.MatRules = do(c.Case.MatRules)
+	written.ProdRules, cleaned.ProdRules = do(c.Case.ProdRules)
+	return
+}
+
+func c03RespelledRun(c c03Respelled, r *hx.Rec) error {
+	written, cleaned, respelled, ok := c03ApplyStyles(c)
+	if !ok || respelled == 0 {
+		r.Unasserted()
+		return nil
+	}
+	literal := c03RefAll(written) // reading A
+	asPaths := c03RefAll(cleaned) // reading B
+	implErr, panicked := implVerifyItem(written)
+	r.Label("respelled-rules=%d", respelled)
+	r.Label("readings-agree=%v", (literal == nil) == (asPaths == nil))
+	if (literal == nil) == (asPaths == nil) && respelled >= 2 {
+		r.Nontrivial()
+	}
+	if panicked != nil {
+		return fmt.Errorf("VerifyArtifacts panicked (%v)", panicked)
+	}
+	if (implErr == nil) != (literal == nil) && (implErr == nil) != (asPaths == nil) {
+		return fmt.Errorf("rules %v / %v: library=%v, but patterns taken literally: %v, and patterns cleaned like paths: %v - no single reading of the patterns gives the library's verdict",
+			written.MatRules, written.ProdRules, implErr, literal, asPaths)
+	}
+	return nil
+}
+
+func c03RespelledGen(t *rapid.T) c03Respelled {
+	var c c03Respelled
+	if rapid.Bool().Draw(t, "directed") {
+		// the usual shape: some consuming rules, a specific DISALLOW, consumers for what it names, a closing DISALLOW *
+		names := []string{"a", "b", "sub/c", "key.pem"}
+		arts := map[string]map[string]string{}
+		for _, n := range rapid.SliceOfNDistinct(rapid.SampledFrom(names), 1, 4, rapid.ID[string]).Draw(t, "artifacts") {
+			arts[n] = map[string]string{"sha256": "aa"}
+		}
+		var rules [][]string
+		for i, k := 0, rapid.IntRange(2, 5).Draw(t, "nrules"); i < k; i++ {
+			rules = append(rules, []string{rapid.SampledFrom([]string{"ALLOW", "CREATE", "DISALLOW", "REQUIRE", "DISALLOW", "ALLOW"}).Draw(t, "type"),
+				rapid.SampledFrom([]string{"a", "b", "sub/c", "key.pem", "sub/*", "*.pem", "?"}).Draw(t, "pattern")})
+		}
+		rules = append(rules, []string{"DISALLOW", "*"})
+		c.Case = c03Case{ItemKind: rapid.SampledFrom([]string{"step", "inspection"}).Draw(t, "itemkind"), Wrapper: rapid.SampledFrom([]string{"legacy", "dsse"}).Draw(t, "wrapper"),
+			MatRules: [][]string{{"ALLOW", "*"}}, ProdRules: rules,
+			Links: map[string]hx.RLink{"item": {Materials: map[string]map[string]string{}, Products: arts}}}
+	} else {
+		c.Case = c03Gen(t)
+	}
+	n := len(c.Case.MatRules) + len(c.Case.ProdRules)
+	c.Styles = rapid.SliceOfN(rapid.SampledFrom([]int{0, 1, 1, 2, 3, 4}), n, n).Draw(t, "styles")
+	return c
+}
+
 func TestC03(t *testing.T) {
 	begin(t, "C03")
 	hx.Assume("reference interpreter written from the in-toto specification's rule algorithm; artifact names, patterns and prefixes are path-clean (the library cleans them as paths, the property defines no normalisation)")
@@ -708,6 +820,15 @@ func TestC03(t *testing.T) {
 			}
 			return nil
 		},
+	}.Execute(t)
+	if t.Failed() {
+		return
+	}
+	hx.Check[c03Respelled]{
+		Property: "C03", Part: "pattern-spellings",
+		Rule:  "rule programs (half from the programs generator, half of the usual shape: consuming rules, specific DISALLOW / REQUIRE, closing DISALLOW *) in which patterns of non-MATCH rules are written as ./p, x/../p, p/ or ./x/.././p; oracle: the verdict equals the reference verdict with all patterns taken literally or the reference verdict with all patterns cleaned like paths; non-trivial = at least two respelled rules and both readings agree; distinct by case JSON",
+		Cases: hx.Pick(3000, 400000),
+		Gen:   c03RespelledGen, Run: c03RespelledRun,
 	}.Execute(t)
 	_ = json.Marshal
 }
